@@ -210,7 +210,7 @@ func c14Cmd(g *simrt.Choices, routeKeys *[]string, good *c14Good) string {
 			}
 			return fmt.Sprintf("modDest %s %d %s", k, idx, []string{"prefix=a.", "addr=10.5.0.3:2003", "addr=10.5.0.9:2003", "regex=^a notPrefix=b", "sub=b", "notSub=zz regex=.*", "prefix="}[g.Pick(7)])
 		}
-		return fmt.Sprintf("modDest %s %s %s", k, []string{"0", "1", "0", "2", "7", "x"}[g.Pick(6)], []string{"prefix=a.", "addr=10.5.0.3:2003", "addr=10.5.0.9:2003", "addr=bad", "regex=(", "regex=^a notPrefix=b", "pickle=true", ""}[g.Pick(8)])
+		return fmt.Sprintf("modDest %s %s %s", k, []string{"0", "1", "0", "2", "7", "x", "-1", "-2", "99999999999999999999"}[g.Pick(9)], []string{"prefix=a.", "addr=10.5.0.3:2003", "addr=10.5.0.9:2003", "addr=bad", "regex=(", "regex=^a notPrefix=b", "pickle=true", ""}[g.Pick(8)])
 	case 10:
 		if g.Bool(0.5) {
 			return "delRoute " + good.pick(g, *routeKeys)
